@@ -8,7 +8,7 @@ EXTENDS Parser, Json, IOUtils, SequencesExt
 CONSTANTS MaxChars, WithMinus
 
 Letters  == {<<97>>, <<44>>, CNT, <<32>>, <<49>>} \cup (IF WithMinus THEN {<<45>>} ELSE {})
-MCPats   == {<<97>>, CNT, <<44>>}
+MCPats   == {<<97>>, CNT, <<44>>, <<97, 97>>}
 MCDelims == {<<44>>, <<97, 44>>}
 
 MCOrigs == StrsUpTo(Letters, MaxChars)
